@@ -3,22 +3,10 @@
 //! diagnostics; a panic (caught by libFuzzer as a crash), abort or hang is a finding.
 use libfuzzer_sys::fuzz_target;
 
-/// crashes already recorded as an OPEN known finding are excluded by construction (counted by the
-/// harness that launches the campaign): inputs nested deeper than this many brackets overflow the
-/// stack (KF-C16-2).
+/// inputs the campaign does not judge: imports (they would read the file system) and more than two
+/// `..` (path containment).  Nothing is excluded because of a known finding any more.
 fn excluded(text: &str) -> bool {
-    let (mut depth, mut max_depth) = (0i32, 0i32);
-    for c in text.chars() {
-        match c {
-            '(' | '[' | '{' => {
-                depth += 1;
-                max_depth = max_depth.max(depth);
-            }
-            ')' | ']' | '}' => depth = (depth - 1).max(0),
-            _ => (),
-        }
-    }
-    max_depth >= 120 || text.matches("..").count() > 2 || text.contains("import")
+    text.matches("..").count() > 2 || text.contains("import")
 }
 
 fuzz_target!(|data: &[u8]| {
@@ -31,6 +19,17 @@ fuzz_target!(|data: &[u8]| {
     if excluded(text) {
         return;
     }
-    // success or diagnostics are both fine; only a panic / abort / hang is a finding
-    let _ = compiler::verif_compile_str("fuzz.ms", text);
+    // the CLI compiles on a thread with a 256 MiB stack (long operator chains recurse once per
+    // operand); do the same here so that the target judges what `mscript compile` does
+    let text = text.to_owned();
+    let worker = std::thread::Builder::new()
+        .stack_size(256 * 1024 * 1024)
+        .spawn(move || {
+            // success or diagnostics are both fine; only a panic / abort / hang is a finding
+            let _ = compiler::verif_compile_str("fuzz.ms", &text);
+        })
+        .expect("spawn");
+    if worker.join().is_err() {
+        panic!("the compiler panicked");
+    }
 });
